@@ -44,6 +44,22 @@ def gen_call(rng, tok, cid='a', kinds=None, invalid_p=0.1, version=None):
                                 opt_p=rng.choice([0.1, 0.3]), trailing_cr=rng.random() < 0.3)
         return {'kind': kind, 'text': text, 'level': level, 'find_groups': rng.random() < 0.7,
                 'then': rng.sample(['er7', 'er7_trailing', 'validate', 'names', 'mllp'], rng.choice([1, 2, 3]))}
+    if kind == 'parse_segment_surplus':
+        # a segment whose last described field is of type varies (QPD, RDT) carrying more fields than the
+        # structure describes: the parser builds the surplus ones itself (parse_field, force_varies branch)
+        vs = [v for v in T.VERSIONS if 'RDT' in T.segments(v)]
+        version = version if version in vs else rng.choice(vs)
+        name = rng.choice([s for s in ('QPD', 'RDT') if s in T.segments(version)])
+        text = gen.segment_text(rng, version, name, ec, tok, invalid_p=0.0, fill=1.0, reps=False)
+        have = text.count(ec['FIELD'])
+        want = len(T.seg_fields(version, name))
+        text += ec['FIELD'] * (want - have) if have < want else ''
+        if text.endswith(ec['FIELD']):
+            text += gen.valid_literal('ST', tok, rng)
+        for _ in range(rng.choice([1, 2, 3])):
+            text += ec['FIELD'] + gen.valid_literal('ST', tok, rng)
+        return {'kind': 'parse_segment', 'text': text, 'version': version, 'ec': 'const' if use_const else eci, 'level': level,
+                'then': rng.sample(['er7', 'er7_trailing', 'validate', 'names'], rng.choice([1, 2]))}
     if kind == 'parse_segment':
         name = gen.pick_segment(rng, version)
         text = gen.segment_text(rng, version, name, ec, tok, invalid_p=inv, fill=rng.choice([0.2, 0.5]),
@@ -171,6 +187,28 @@ def gen_call(rng, tok, cid='a', kinds=None, invalid_p=0.1, version=None):
         st = T.datatype_struct(version, dt)
         sub = (st[0][0] if st and rng.random() < 0.8 else '%s_1' % dt)
         return {'kind': kind, 'dt': dt, 'sub': sub, 'version': version, 'level': level}
+    if kind == 'build_attach':
+        # a segment made on its own, given one delimiter-free leaf value while it has no parent, then added to
+        # a message with explicit delimiters and written through the message with delimiter-bearing text
+        s = gen.pick_structure(rng, version)
+        ref = T.messages(version)[s]
+        cands = []
+        for c in ref[1]:
+            if c[3] == 'SEG' and c[0] != 'MSH':
+                fl = [(i + 1, f) for i, f in enumerate(T.seg_fields(version, c[0])) if f[1] is not None and f[2][1] != 0 and f[1][2] != 'WD']
+                base = [x for x in fl if T.is_base(version, x[1][1][2])]
+                cplx = [x for x in fl if x[1][1][0] == 'sequence' and T.datatype_struct(version, x[1][1][2])]
+                if base and cplx:
+                    cands.append((c[0], base, cplx))
+        if not cands:
+            return gen_call(rng, tok, cid, ['build'], invalid_p)
+        seg, base, cplx = rng.choice(cands)
+        b, x = rng.choice(base), rng.choice(cplx)
+        leaf, _ = gen.leaf(b[1][1][2], tok, rng, 0.0)
+        step = ['attach_touched', seg, '%s_%d' % (seg.lower(), b[0]), leaf, '%s_%d' % (seg.lower(), x[0]),
+                gen.field_text(rng, version, x[1][1], ec, tok, 0.8)]
+        return {'kind': 'build', 'name': s, 'version': version, 'level': level, 'ec': eci, 'ctrl': '%s%d' % (cid, tok.next()),
+                'steps': [step], 'then': ['er7', 'names']}
     # build: a message made through the object API
     s = gen.pick_structure(rng, version)
     steps = []
@@ -446,6 +484,12 @@ def run_call(c, hook=None):
                     elif st[0] == 'grp_value':
                         g = m.add_group(st[1])
                         g.value = st[2]
+                    elif st[0] == 'attach_touched':
+                        from hl7apy.core import Segment
+                        sg = Segment(st[1], version=c['version'], validation_level=c['level'])
+                        setattr(sg, st[2], st[3])
+                        m.add(sg)
+                        setattr(getattr(m, st[1]), st[4], st[5])
                     elif st[0] == 'copy_field':
                         src = P.parse_segment(st[3], version=c['version'], encoding_chars=_ec(0), validation_level=c['level'])
                         seg = getattr(m, st[1])
